@@ -361,6 +361,9 @@ func c11Fixed(g *lineGen, r *rng, tier string) {
 			{bigRec(fr, 509, 1), bigRec(fr, 510, 2), bigRec(fr, 511, 3), bigRec(fr, 512, 4), bigRec(fr, 513, 5), bigRec(fr, 1024, 6)},
 			{bigRec(fr, 4095, 1), bigRec(fr, 4096, 2), bigRec(fr, 4097, 3), lit(""), bigRec(fr, 8192, 4)},
 			{lit("[\"") + "+" + zspec(70000, 11, "a") + "+" + lit("\",") + "+" + yspec(9000, "{\"x\":[null,true]},") + "+" + lit("0]"), lit("\"z\"")},
+			// multi-megabyte records with further records pipelined behind them (growing and shrinking)
+			{lit("\"") + "+" + zspec(1<<20+1, 21, "a") + "+" + lit("\""), lit("{}"), lit("\"x\""), lit("[1,2]"), bigRec(fr, 300, 8)},
+			{lit("{}"), lit("[\"") + "+" + zspec(3<<20, 22, "a") + "+" + lit("\"]"), lit("{\"a\":1}"), lit("\"") + "+" + zspec(1<<20+7, 23, "a") + "+" + lit("\""), lit("[]"), lit("")},
 		}
 		for _, specs := range bigs {
 			g.roundTrip(fn, specs, r, 3)
